@@ -288,7 +288,8 @@ pub fn check(tape: &[u32]) -> CheckResult {
     // long history: the cheap (non-rendering) calls repeated many times must keep returning the same
     // values (catches state that only changes after a warm-up period)
     {
-        let cheap: Vec<usize> = (0..n).filter(|i| !matches!(calls[*i], Call::FrameImage(_) | Call::CelImage(..) | Call::Tilemap(..) | Call::TilesetImage(_) | Call::TileImage(..) | Call::Debugfmt | Call::Palette)).collect();
+        let many_tags = f.num_tags() > 100;
+        let cheap: Vec<usize> = (0..n).filter(|i| !matches!(calls[*i], Call::FrameImage(_) | Call::CelImage(..) | Call::Tilemap(..) | Call::TilesetImage(_) | Call::TileImage(..) | Call::Debugfmt | Call::Palette) && !(many_tags && matches!(calls[*i], Call::Tags))).collect();
         let rounds = 12000 / cheap.len().max(1) + 1;
         for round in 0..rounds {
             for &i in &cheap {
@@ -507,7 +508,7 @@ pub fn run(run: &mut Run) {
     let (lanes, cases) = if run.thorough() { (16, 4000) } else { (16, 150) };
     run_tapes(run, lanes, cases, 2000, &check);
     // (d)
-    let n = if run.thorough() { 6000 } else { 500 };
+    let n = if run.thorough() { 6000 } else { 300 };
     let seed = run.seed;
     let mut digests = vec![];
     for p in ["checked", "fast", "dev0", "noutils"] {
